@@ -1,4 +1,431 @@
-//! C06 monitor (not written yet).
-pub fn run(_ctx: &crate::ctx::Ctx, report: &mut vcore::Report) {
-    report.notes.push("stub".into());
+//! C06 – servers accept a request body only if it is exactly one complete valid document.
+//!
+//! Requests are handed straight to the endpoints (generated and macro-declared, blocking and
+//! async). Bodies are built *constructively* from a known value so the expectation is known
+//! without parsing; all chunkings of small bodies are enumerated; a distinguishable stream error
+//! is injected at every chunk index.
+use crate::ctx::{guarded, Ctx};
+use crate::gen::sink::*;
+use crate::hand;
+use crate::node::trunc;
+use crate::svc::*;
+use bytes::Bytes;
+use conjure_error::Error;
+use conjure_http::PathParams;
+use conjure_serde::{json, smile};
+use http::{HeaderMap, HeaderValue, Method, Request};
+use labrt::{all_chunkings, block_on, error_class, is_injected, random_chunking, route, ChunkStream, Chunks};
+use serde::de::DeserializeOwned;
+use serde::Serialize;
+use serde_json::json;
+use std::sync::Arc;
+use vcore::rng::fnv;
+use vcore::text::*;
+use vcore::{Report, Rng};
+
+#[derive(Clone, Copy, PartialEq, Debug)]
+enum Shape {
+    Str,
+    Arr,
+    Obj,
+    Num,
+}
+
+struct Ep {
+    name: &'static str,
+    hand: bool,
+    method: Method,
+    uri: &'static str,
+    headers: &'static [(&'static str, &'static str)],
+    limit: usize,
+    optional: bool,
+    arg: &'static str,
+    shape: Shape,
+    gen: fn(&mut Rng) -> String,
+    /// D -> (handler's rendering of the value, Smile bytes of the value)
+    canon: fn(&str) -> (String, Vec<u8>),
+}
+
+fn canon<T: DeserializeOwned + Serialize>(d: &str) -> (String, Vec<u8>) {
+    let v: T = json::client_from_str(d).unwrap_or_else(|e| panic!("generator produced an invalid document {}: {}", d, e));
+    (j(&v), smile::to_vec(&v).expect("smile"))
+}
+
+const DEFAULT_LIMIT: usize = 50 * 1024 * 1024;
+
+fn gen_str_doc(r: &mut Rng) -> String {
+    j(&hostile_string(r, 10))
+}
+
+fn eps() -> Vec<Ep> {
+    vec![
+        Ep { name: "jsonBody", hand: false, method: Method::POST, uri: "/sink/json", headers: &[], limit: DEFAULT_LIMIT, optional: false, arg: "body", shape: Shape::Obj,
+             gen: |r| gen_payload_json(r, 1), canon: canon::<Payload> },
+        Ep { name: "optBody", hand: false, method: Method::POST, uri: "/sink/optBody", headers: &[], limit: DEFAULT_LIMIT, optional: true, arg: "body", shape: Shape::Obj,
+             gen: gen_item_json, canon: canon::<Option<Item>> },
+        Ep { name: "listBody", hand: false, method: Method::PUT, uri: "/sink/listBody", headers: &[], limit: DEFAULT_LIMIT, optional: false, arg: "items", shape: Shape::Arr,
+             gen: |r| format!("[{}]", (0..r.below(5)).map(|_| j(&hostile_f64(r))).collect::<Vec<_>>().join(",")), canon: canon::<Vec<f64>> },
+        Ep { name: "choiceBody", hand: false, method: Method::POST, uri: "/sink/choice", headers: &[], limit: DEFAULT_LIMIT, optional: false, arg: "choice", shape: Shape::Obj,
+             gen: |r| j(&gen_choice(r)), canon: canon::<Choice> },
+        Ep { name: "smallBody", hand: false, method: Method::POST, uri: "/sink/small", headers: &[], limit: 32, optional: false, arg: "text", shape: Shape::Str,
+             gen: |r| { let n = r.below(12); j(&alnum(r, n)) }, canon: canon::<String> },
+        Ep { name: "cookieAuth", hand: false, method: Method::POST, uri: "/sink/cookieAuth", headers: &[("cookie", "SINK_TOKEN=tok.en")], limit: DEFAULT_LIMIT, optional: false, arg: "body", shape: Shape::Num,
+             gen: |r| hostile_i32(r).to_string(), canon: canon::<i32> },
+        Ep { name: "unsafeBody", hand: false, method: Method::POST, uri: "/sink/unsafeBody/7", headers: &[("cookie", "MIX_COOKIE=abc")], limit: DEFAULT_LIMIT, optional: false, arg: "secretBody", shape: Shape::Obj,
+             gen: gen_item_json, canon: canon::<Item> },
+        Ep { name: "body", hand: true, method: Method::POST, uri: "/hand/body/some%20id", headers: &[("authorization", "Bearer abc"), ("x-custom", "v")], limit: DEFAULT_LIMIT, optional: false, arg: "body", shape: Shape::Obj,
+             gen: gen_item_json, canon: canon::<Item> },
+        Ep { name: "small16", hand: true, method: Method::POST, uri: "/hand/small16", headers: &[], limit: 16, optional: false, arg: "v", shape: Shape::Str,
+             gen: |r| { let n = r.below(8); j(&alnum(r, n)) }, canon: canon::<String> },
+        Ep { name: "strs", hand: true, method: Method::POST, uri: "/hand/strs", headers: &[], limit: DEFAULT_LIMIT, optional: false, arg: "v", shape: Shape::Arr,
+             gen: |r| format!("[{}]", (0..r.below(4)).map(|_| gen_str_doc(r)).collect::<Vec<_>>().join(",")), canon: canon::<Vec<String>> },
+    ]
+}
+
+#[derive(Clone, Copy, PartialEq, Debug)]
+enum Fmt {
+    Json,
+    Smile,
+}
+
+#[derive(Clone, Debug)]
+struct Body {
+    bytes: Vec<u8>,
+    class: &'static str,
+    /// Some(true): exactly one valid document of the type; Some(false): not; None: undecided
+    ok: Option<bool>,
+    fmt: Fmt,
+}
+
+fn make_body(r: &mut Rng, ep: &Ep, d: &str, smile_bytes: &[u8]) -> Body {
+    let fmt = if r.chance(1, 4) { Fmt::Smile } else { Fmt::Json };
+    let base: Vec<u8> = if fmt == Fmt::Json { d.as_bytes().to_vec() } else { smile_bytes.to_vec() };
+    const WS: &[&[u8]] = &[b" ", b"\n", b"\t\r\n ", b"  "];
+    const GARBAGE: &[&[u8]] = &[b"x", b"garbage", b"}", b"]", b"1", b"\"", b",", b"\x00", b"\xff", b"null", b"//c"];
+    let ws: &[u8] = WS[r.below(WS.len())];
+    let mut garbage: &[u8] = GARBAGE[r.below(GARBAGE.len())];
+    // 0xFF is Smile's optional end-of-content marker, and a digit after a JSON number just makes
+    // another number: neither is "trailing data"
+    if (fmt == Fmt::Smile && garbage == b"\xff") || (fmt == Fmt::Json && ep.shape == Shape::Num && garbage == b"1") {
+        garbage = b"x";
+    }
+    let (bytes, class, ok): (Vec<u8>, &'static str, Option<bool>) = match r.below(14) {
+        0 | 1 | 2 => (base.clone(), "exact", Some(true)),
+        3 if fmt == Fmt::Json => ([&base[..], ws].concat(), "trailing-whitespace", Some(true)),
+        4 if fmt == Fmt::Json => ([ws, &base[..]].concat(), "leading-whitespace", Some(true)),
+        5 => ([&base[..], garbage].concat(), "trailing-garbage", Some(false)),
+        6 if fmt == Fmt::Json => ([&base[..], ws, garbage].concat(), "trailing-garbage-after-space", Some(false)),
+        7 => (
+            if fmt == Fmt::Json && ep.shape == Shape::Num { [&base[..], b" ", &base[..]].concat() } else { [&base[..], &base[..]].concat() },
+            "two-documents",
+            Some(false),
+        ),
+        8 if (ep.shape != Shape::Num || fmt == Fmt::Smile) && base.len() > 1 => {
+            let cut = if fmt == Fmt::Smile { 4.max(1 + r.below(base.len() - 1)).min(base.len() - 1) } else { 1 + r.below(base.len() - 1) };
+            // Smile: a cut inside the document; whether a prefix happens to be complete is not
+            // known by construction, so it is only judged for JSON
+            (base[..cut].to_vec(), "truncated", if fmt == Fmt::Json { Some(false) } else { None })
+        }
+        9 => (vec![], "empty", Some(false)),
+        10 if fmt == Fmt::Json => {
+            // single-byte corruption, judged only if the result is not JSON at all
+            let mut b = base.clone();
+            let i = r.below(b.len());
+            b[i] = *r.pick(&[b'}', b'x', b'"', b',', 0u8, 0xff, b':', b'[']);
+            let still_json = vcore::json::parse(&b).is_ok();
+            (b, "corrupted-byte", if still_json { None } else { Some(false) })
+        }
+        11 if fmt == Fmt::Json && ep.shape == Shape::Obj => {
+            let mut t = d.trim_end().to_string();
+            t.pop();
+            let sep = if t.trim_end().ends_with('{') { "" } else { "," };
+            (format!("{}{}\"zzUnknownMember\":{}}}", t, sep, r.pick(&["1", "null", "{\"a\":[]}", "\"x\""])).into_bytes(), "unknown-member", Some(false))
+        }
+        12 if fmt == Fmt::Json => {
+            let wrong = match ep.shape {
+                Shape::Str => "17",
+                Shape::Arr => "{\"a\":1}",
+                Shape::Obj => "[1,2]",
+                Shape::Num => "\"12\"",
+            };
+            (wrong.as_bytes().to_vec(), "wrong-json-kind", Some(false))
+        }
+        _ => (base.clone(), "exact", Some(true)),
+    };
+    Body { bytes, class, ok, fmt }
+}
+
+#[derive(Clone, Debug)]
+struct Ct {
+    value: Option<Vec<u8>>,
+    class: &'static str,
+    /// which registered encoding the header names, if any
+    names: Option<Fmt>,
+}
+
+fn make_ct(r: &mut Rng, fmt: Fmt) -> Ct {
+    let exact: &[u8] = if fmt == Fmt::Json { b"application/json" } else { b"application/x-jackson-smile" };
+    match r.below(16) {
+        0 => Ct { value: None, class: "absent", names: None },
+        1 => Ct { value: Some([exact, b"; charset=utf-8"].concat()), class: "with-parameters", names: Some(fmt) },
+        2 => Ct { value: Some(exact.to_ascii_uppercase()), class: "upper-case", names: Some(fmt) },
+        3 => Ct {
+            value: Some(if fmt == Fmt::Json { b"application/x-jackson-smile".to_vec() } else { b"application/json".to_vec() }),
+            class: "other-registered-encoding",
+            names: Some(if fmt == Fmt::Json { Fmt::Smile } else { Fmt::Json }),
+        },
+        4 => Ct { value: Some(b"text/plain".to_vec()), class: "unregistered", names: None },
+        5 => Ct { value: Some(b"application/*".to_vec()), class: "wildcard", names: None },
+        6 => Ct { value: Some(b"garbage".to_vec()), class: "unparsable", names: None },
+        7 => Ct { value: Some([exact, b"\xff"].concat()), class: "non-ascii", names: None },
+        _ => Ct { value: Some(exact.to_vec()), class: "exact", names: Some(fmt) },
+    }
+}
+
+struct Delivery {
+    result: Result<Result<(), Error>, String>,
+    calls: Vec<Call>,
+}
+
+fn deliver(ep: &Ep, ct: &Ct, chunks: Chunks, is_async: bool) -> Delivery {
+    let rec = Arc::new(Recorder::default());
+    let uri: http::Uri = ep.uri.parse().expect("endpoint uri");
+    let mut headers = HeaderMap::new();
+    for (k, v) in ep.headers {
+        headers.insert(http::header::HeaderName::from_static(k), HeaderValue::from_static(v));
+    }
+    if let Some(v) = &ct.value {
+        headers.insert(http::header::CONTENT_TYPE, HeaderValue::from_bytes(v).expect("header bytes"));
+    }
+    fn mk<B>(ep: &Ep, uri: &http::Uri, headers: &HeaderMap, params: PathParams, body: B) -> Request<B> {
+        let mut req = Request::new(body);
+        *req.method_mut() = ep.method.clone();
+        *req.uri_mut() = uri.clone();
+        *req.headers_mut() = headers.clone();
+        req.extensions_mut().insert(params);
+        req
+    }
+    let result = if !is_async {
+        let endpoints = if ep.hand { hand::sync_endpoints(hand::HandHandler { rec: rec.clone() }) } else { sync_endpoints(Handler { rec: rec.clone() }) };
+        let metas: Vec<&(dyn conjure_http::server::Endpoint<Chunks, Vec<u8>> + Sync + Send)> = endpoints.iter().map(|e| &**e).collect();
+        let mut routed = route(&metas, &ep.method, uri.path());
+        assert_eq!(routed.len(), 1, "route {}", ep.uri);
+        let r = routed.pop().unwrap();
+        let e = &endpoints[r.index];
+        guarded(|| e.handle(mk(ep, &uri, &headers, r.params, chunks), &mut http::Extensions::new()).map(|_| ()))
+    } else {
+        let endpoints = if ep.hand { hand::async_endpoints(hand::HandHandler { rec: rec.clone() }) } else { async_endpoints(Handler { rec: rec.clone() }) };
+        let metas: Vec<&conjure_http::server::BoxAsyncEndpoint<'static, ChunkStream, Vec<u8>>> = endpoints.iter().collect();
+        let mut routed = route(&metas, &ep.method, uri.path());
+        assert_eq!(routed.len(), 1, "route {}", ep.uri);
+        let r = routed.pop().unwrap();
+        let e = &endpoints[r.index];
+        guarded(|| {
+            use conjure_http::server::AsyncEndpoint;
+            block_on(async { e.handle(mk(ep, &uri, &headers, r.params, ChunkStream::new(chunks)), &mut http::Extensions::new()).await.map(|_| ()) })
+        })
+    };
+    Delivery { result, calls: rec.take() }
+}
+
+#[allow(clippy::too_many_arguments)]
+fn judge(rep: &mut Report, sub: &str, seed: u64, ep: &Ep, body: &Body, ct: &Ct, nchunks: usize, fail_at: Option<usize>, is_async: bool, want: &str, d: Delivery) {
+    let flavour = if is_async { "async" } else { "blocking" };
+    // reference decision, by construction
+    let absent_optional = ep.optional && ct.value.is_none();
+    let accept: Option<bool> = if absent_optional {
+        Some(true)
+    } else if ct.names != Some(body.fmt) || fail_at.is_some() || body.bytes.len() > ep.limit {
+        Some(false)
+    } else {
+        body.ok
+    };
+    let chunk_class = match nchunks {
+        0 => "0",
+        1 => "1",
+        2 => "2",
+        _ => "3+",
+    };
+    rep.evaluations += 1;
+    rep.cell(&format!("body/{}/{}", if body.fmt == Fmt::Json { "json" } else { "smile" }, body.class));
+    rep.cell(&format!("content-type/{}", ct.class));
+    rep.cell(&format!("chunks/{}/{}", flavour, chunk_class));
+    if fail_at.is_some() {
+        rep.cell(&format!("stream-error/{}/{}", flavour, chunk_class));
+    }
+    rep.distinct.insert(fnv(&format!("{}|{}|{:?}|{}|{}|{}|{}|{}", ep.name, body.class, body.fmt, ct.class, chunk_class, fail_at.map(|a| a.min(3) as i64).unwrap_or(-1), flavour, body.bytes.len() > ep.limit)));
+    let detail = |what: &str, info: String| {
+        json!({"endpoint": ep.name, "flavour": flavour, "what": what, "body_class": body.class, "format": format!("{:?}", body.fmt),
+               "body": trunc(&String::from_utf8_lossy(&body.bytes)), "body_len": body.bytes.len(), "limit": ep.limit,
+               "content_type": ct.value.as_ref().map(|v| String::from_utf8_lossy(v).to_string()), "chunks": nchunks, "stream_error_at": fail_at,
+               "expected_value": want, "handler_events": d.calls.iter().map(|c| json!(c.args)).collect::<Vec<_>>(), "info": info})
+    };
+    let fmt = if body.fmt == Fmt::Json { "json" } else { "smile" };
+    let res = match &d.result {
+        Err(p) => {
+            rep.violation(sub, seed, format!("panic:{}", body.class), detail("panic", p.clone()));
+            return;
+        }
+        Ok(r) => r,
+    };
+    // a handler event must always carry the value of the document (or None for the absent optional)
+    let expected_arg = if absent_optional { "null".to_string() } else { want.to_string() };
+    for c in &d.calls {
+        let got = c.args.iter().find(|(k, _)| *k == ep.arg).map(|(_, v)| v.as_str());
+        if accept != Some(false) && got != Some(expected_arg.as_str()) && body.ok == Some(true) {
+            rep.violation(sub, seed, format!("handler-saw-different-value:{}", body.class), detail("value", format!("{:?}", got)));
+            return;
+        }
+    }
+    match accept {
+        Some(true) => {
+            if d.calls.len() != 1 || res.is_err() {
+                let info = res.as_ref().err().map(|e| format!("{} / {}", error_class(e), e.cause())).unwrap_or_default();
+                rep.violation(sub, seed, format!("rejected-valid:{}:{}:{}", fmt, body.class, ct.class), detail("rejected a valid delivery", info));
+            }
+        }
+        Some(false) => {
+            if !d.calls.is_empty() {
+                let why = if fail_at.is_some() {
+                    "stream-error"
+                } else if ct.names != Some(body.fmt) {
+                    "content-type"
+                } else if body.bytes.len() > ep.limit {
+                    "oversize"
+                } else {
+                    body.class
+                };
+                rep.violation(sub, seed, format!("accepted:{}:{}", fmt, why), detail("handler invoked for an inadmissible body", String::new()));
+                return;
+            }
+            match res {
+                Ok(()) => rep.violation(sub, seed, format!("no-error:{}:{}", fmt, body.class), detail("no handler event but no error either", String::new())),
+                Err(e) => {
+                    let class = error_class(e);
+                    let admissible = class == "service:InvalidArgument" || (fail_at.is_some() && is_injected(e));
+                    if !admissible {
+                        rep.violation(sub, seed, format!("wrong-error:{}:{}", class, body.class), detail("error is neither INVALID_ARGUMENT nor the stream's own", e.cause().to_string()));
+                    }
+                }
+            }
+        }
+        None => rep.observed_only(&format!("undecided-by-construction/{}", body.class)),
+    }
+}
+
+fn random_case(seed: u64, rep: &mut Report) {
+    let eps = eps();
+    let mut r = Rng::new(seed);
+    let ep = r.pick(&eps);
+    let d = (ep.gen)(&mut r);
+    let (want, smile_bytes) = (ep.canon)(&d);
+    let mut body = make_body(&mut r, ep, &d, &smile_bytes);
+    // size limit: for limited endpoints aim exact-class bodies at N-1, N, N+1
+    if ep.limit < 1000 && body.class == "exact" && body.fmt == Fmt::Json && r.chance(1, 2) {
+        let total = (ep.limit as i64 + r.range(-2, 2)).max(2) as usize;
+        let s = alnum(&mut r, total - 2);
+        body.bytes = format!("\"{}\"", s).into_bytes();
+        body.class = "exact-at-limit";
+        let ct = make_ct(&mut r, body.fmt);
+        let want = j(&s);
+        return finish_case(seed, rep, &mut r, ep, body, ct, &want);
+    }
+    let ct = make_ct(&mut r, body.fmt);
+    finish_case(seed, rep, &mut r, ep, body, ct, &want)
+}
+
+fn finish_case(seed: u64, rep: &mut Report, r: &mut Rng, ep: &Ep, body: Body, ct: Ct, want: &str) {
+    let chunks = random_chunking(r, &body.bytes);
+    let n = chunks.len();
+    let fail_at = if r.chance(1, 5) { Some(r.below(n + 1)) } else { None };
+    let is_async = r.bool();
+    let mut c = Chunks::of(chunks);
+    if let Some(at) = fail_at {
+        c = c.fail_at(at);
+    }
+    rep.sample(5, || json!({"sub": "random", "case_seed": seed, "endpoint": ep.name, "body": trunc(&String::from_utf8_lossy(&body.bytes)), "class": body.class,
+        "content_type": ct.value.as_ref().map(|v| String::from_utf8_lossy(v).to_string()), "chunks": n, "stream_error_at": fail_at, "async": is_async}));
+    let d = deliver(ep, &ct, c, is_async);
+    judge(rep, "random", seed, ep, &body, &ct, n, fail_at, is_async, want, d);
+}
+
+/// Exhaustive part: every chunking (with up to two interleaved empty chunks) of a few small
+/// bodies, and a stream error at every chunk index of every chunking with up to one empty chunk.
+fn enumerate(rep: &mut Report, thorough: bool) {
+    let eps = eps();
+    let by_name = |n: &str| eps.iter().find(|e| e.name == n).unwrap();
+    let json_ct = Ct { value: Some(b"application/json".to_vec()), class: "exact", names: Some(Fmt::Json) };
+    let cases: Vec<(&Ep, &str, &'static str, Option<bool>, String)> = vec![
+        (by_name("smallBody"), "\"ab\"", "exact", Some(true), "\"ab\"".into()),
+        (by_name("smallBody"), "\"ab\"x", "trailing-garbage", Some(false), "\"ab\"".into()),
+        (by_name("smallBody"), "\"ab\" ", "trailing-whitespace", Some(true), "\"ab\"".into()),
+        (by_name("smallBody"), "\"ab", "truncated", Some(false), "\"ab\"".into()),
+        (by_name("listBody"), "[1,2.5]", "exact", Some(true), "[1.0,2.5]".into()),
+        (by_name("listBody"), "[1,2.5]]", "trailing-garbage", Some(false), "[1.0,2.5]".into()),
+        (by_name("cookieAuth"), "12", "exact", Some(true), "12".into()),
+        (by_name("cookieAuth"), "1 2", "two-documents", Some(false), "1".into()),
+        (by_name("strs"), "[\"a\"]", "exact", Some(true), "[\"a\"]".into()),
+        (by_name("small16"), "", "empty", Some(false), "\"\"".into()),
+    ];
+    let mut total = 0u64;
+    for (idx, (ep, text, class, ok, want)) in cases.iter().enumerate() {
+        let body = Body { bytes: text.as_bytes().to_vec(), class, ok: *ok, fmt: Fmt::Json };
+        // long bodies: cap the enumeration at two empties only for <= 8 bytes (quick)
+        let max_empty = if text.len() <= 5 || thorough { 2 } else { 1 };
+        for is_async in [false, true] {
+            for (k, ch) in all_chunkings(&body.bytes, max_empty).into_iter().enumerate() {
+                let n = ch.len();
+                let d = deliver(ep, &json_ct, Chunks::of(ch.clone()), is_async);
+                judge(rep, "enumerated", (idx * 1_000_000 + k) as u64, ep, &body, &json_ct, n, None, is_async, want, d);
+                total += 1;
+                let empties = ch.iter().filter(|c| c.is_empty()).count();
+                if empties <= 1 {
+                    for at in 0..=n {
+                        let d = deliver(ep, &json_ct, Chunks::of(ch.clone()).fail_at(at), is_async);
+                        judge(rep, "enumerated", (idx * 1_000_000 + k) as u64, ep, &body, &json_ct, n, Some(at), is_async, want, d);
+                        total += 1;
+                    }
+                }
+            }
+        }
+    }
+    rep.cell_n("exhaustive/chunkings-x-error-positions", total);
+}
+
+fn big_case(rep: &mut Report) {
+    // the default 50 MiB limit, at N-1, N, N+1 (thorough only)
+    let eps = eps();
+    let ep = eps.iter().find(|e| e.name == "strs").unwrap();
+    let json_ct = Ct { value: Some(b"application/json".to_vec()), class: "exact", names: Some(Fmt::Json) };
+    for delta in [-1i64, 0, 1] {
+        let total = (DEFAULT_LIMIT as i64 + delta) as usize;
+        let s = "a".repeat(total - 4);
+        let text = format!("[\"{}\"]", s);
+        let want = j(&vec![s]);
+        let body = Body { bytes: text.into_bytes(), class: "exact-at-limit", ok: Some(true), fmt: Fmt::Json };
+        for is_async in [false, true] {
+            let chunks: Vec<Bytes> = body.bytes.chunks(8 * 1024 * 1024).map(Bytes::copy_from_slice).collect();
+            let n = chunks.len();
+            let d = deliver(ep, &json_ct, Chunks::of(chunks), is_async);
+            judge(rep, "default-limit", delta as u64, ep, &body, &json_ct, n, None, is_async, &want, d);
+        }
+    }
+}
+
+pub fn run(ctx: &Ctx, report: &mut Report) {
+    ctx.cases(report, "random", ctx.n(100_000, 5_000_000), random_case);
+    let thorough = ctx.thorough;
+    ctx.fixed(report, "enumerated", |rep| enumerate(rep, thorough));
+    if ctx.thorough {
+        ctx.fixed(report, "default-limit", big_case);
+    }
+    if ctx.replay.is_none() {
+        report.floor_cells("json-body-classes", "body/json/", 12);
+        report.floor_cells("smile-body-classes", "body/smile/", 5);
+        report.floor_cells("content-type-classes", "content-type/", 9);
+        report.floor_cells("chunk-paths", "chunks/", 8);
+        report.floor_cells("stream-error-paths", "stream-error/", 8);
+    }
+    report.notes.push("exhaustive part: all chunkings (<= 2 interleaved empty chunks for bodies <= 5 bytes, <= 1 otherwise; 2 everywhere in thorough) of 10 small bodies, and a stream error at every chunk index of every chunking with <= 1 empty chunk, blocking and async".into());
+    report.notes.push("distinct = (endpoint, body class, format, content-type class, chunk-path class 0/1/2/3+, error position class, flavour, oversize?)".into());
 }
